@@ -76,13 +76,27 @@ def alphabet(cfg) -> list[str]:
     return a
 
 
-def _backend(cfg):
+# conditional quoting (str_quote_pattern / str_quote_pattern_negation): (pattern, negation, predicate over the
+# literal text of the value that says whether the pattern matches - independent of the source spelling)
+QUOTE_PATTERNS = {
+    "unless-word": (r"^[a-z0-9]*\Z", True, lambda toks: all(isinstance(t, tuple) and re.fullmatch(r"[a-z0-9]", t[1]) for t in toks)),
+    "if-space": (r".*\s", False, lambda toks: any(isinstance(t, tuple) and t[1].isspace() for t in toks)),
+    "unless-number": (r"^[0-9]+\Z", True, lambda toks: bool(toks) and all(isinstance(t, tuple) and re.fullmatch(r"[0-9]", t[1]) for t in toks)),
+    "if-word": (r"^[a-z0-9]*\Z", False, lambda toks: all(isinstance(t, tuple) and re.fullmatch(r"[a-z0-9]", t[1]) for t in toks)),
+}
+
+
+def _backend(cfg, qpat=None):
     from sigma.backends.test import TextQueryTestBackend
 
     quote, esc, wm, ws, add_esc, filt = cfg
-    return type("C05Backend", (TextQueryTestBackend,), {
+    attrs = {
         "str_quote": quote, "escape_char": esc, "wildcard_multi": wm, "wildcard_single": ws,
-        "add_escaped": add_esc, "filter_chars": filt, "str_quote_pattern": None})()
+        "add_escaped": add_esc, "filter_chars": filt, "str_quote_pattern": None}
+    if qpat:
+        attrs["str_quote_pattern"] = re.compile(QUOTE_PATTERNS[qpat][0])
+        attrs["str_quote_pattern_negation"] = QUOTE_PATTERNS[qpat][1]
+    return type("C05Backend", (TextQueryTestBackend,), attrs)()
 
 
 def _interesting(s: str) -> bool:
@@ -153,8 +167,9 @@ def check_case(case: dict) -> Outcome:
         want = tuple(t for t in rs.parse(s) if not (isinstance(t, tuple) and t[1] in filt))
         unsupported = (wm is None and "*" in rs.parse(s)) or (ws is None and "?" in rs.parse(s))
         value_obj = SigmaString(s)
+        qpat = case.get("qpat")
         try:
-            text = _backend(cfg).convert_value_str(value_obj, ConversionState())
+            text = _backend(cfg, qpat).convert_value_str(value_obj, ConversionState())
         except SigmaError:
             if not unsupported:
                 out.fail("C05:render:rejected", f"cfg={cfg}: {s!r} rejected although every part is supported")
@@ -164,10 +179,37 @@ def check_case(case: dict) -> Outcome:
         if unsupported:
             out.fail("C05:render:unsupported-wildcard-emitted", f"cfg={cfg}: {s!r} has an unsupported wildcard but rendered {text!r}")
             return out
+        dcfg = cfg
+        if qpat:
+            # conditional quoting: the value is quoted iff the pattern matches its text (negated as configured);
+            # an unquoted literal runs to the end of the text and still escapes the quote character
+            pat, neg, pred = QUOTE_PATTERNS[qpat]
+            expect_quoted = bool(quote) and (pred(rs.parse(s)) != neg)
+            out.label("quote-pattern:" + qpat, "quoted" if expect_quoted else "unquoted")
+            is_quoted = bool(quote) and text.startswith(quote) and text.endswith(quote) and len(text) >= 2 * len(quote)
+            if not expect_quoted:
+                dcfg = ("", esc, wm, ws, quote + add_esc, filt)
+                if is_quoted:
+                    try:
+                        g2, e2 = decode_literal(text, 0, cfg)
+                    except DecodeError:
+                        g2, e2 = None, -1
+                    if g2 == want and e2 == len(text):
+                        out.fail("C05:render:quote-pattern-decision", f"cfg={cfg} pattern={pat!r} negation={neg}: {s!r} rendered {text!r} with quotes, the pattern says without")
+                        return out
+            elif not is_quoted:
+                out.fail("C05:render:quote-pattern-decision", f"cfg={cfg} pattern={pat!r} negation={neg}: {s!r} rendered {text!r} without quotes, the pattern says quoted")
+                return out
         try:
-            got, end = decode_literal(text, 0, cfg)
+            got, end = decode_literal(text, 0, dcfg)
         except DecodeError as e:
             out.fail("C05:render:undecodable", f"cfg={cfg}: {s!r} rendered {text!r}: {e}")
+            return out
+        if qpat:
+            if end != len(text):
+                out.fail("C05:render:literal-terminated-early", f"cfg={cfg} quote pattern {qpat}: {s!r} rendered {text!r}: literal ends at {end} of {len(text)}")
+            elif got != want:
+                out.fail("C05:render:tokens", f"cfg={cfg} quote pattern {qpat}: {s!r} rendered {text!r} decodes to {got}, expected {want}")
             return out
         if end != len(text):
             out.fail("C05:render:literal-terminated-early", f"cfg={cfg}: {s!r} rendered {text!r}: literal ends at {end} of {len(text)}")
@@ -491,8 +533,18 @@ def _ci_match(toks, subj: str) -> bool:
     return m in cur
 
 
+QP_NAMES = sorted(QUOTE_PATTERNS)
+QP_STRINGS = ["", "a", "a1", "1", "12", "0a", "a b", " ", "a\tb", "1 2", "a*", "1?", "*", "a\\*", "A", "a.b", "1.5", "-1", "a\"b", "12\n", "\u0661", "a\u00a0b", "é", "a b*"]
+
+
 def run(ctx) -> None:
     rs.self_check()
+    for ci, cfg in enumerate(CONFIGS):
+        if cfg[0]:
+            for qn in QP_NAMES:
+                for k, s in enumerate(QP_STRINGS):
+                    if (ci + k) % ctx.nshards == ctx.shard:
+                        ctx.do({"kind": "render", "cfg": list(cfg), "s": s, "qpat": qn})
     L = 4 if ctx.tier == "quick" else 5
     i = 0
     seen_parse = set()
@@ -505,6 +557,8 @@ def run(ctx) -> None:
                 if i % ctx.nshards != ctx.shard:
                     continue
                 ctx.do({"kind": "render", "cfg": list(cfg), "s": s})
+                if cfg[0] and n <= 3:   # conditional quoting of the same value
+                    ctx.do({"kind": "render", "cfg": list(cfg), "s": s, "qpat": QP_NAMES[(i + n) % len(QP_NAMES)]})
                 if cfg[0] and 1 <= n <= 3:   # the same literal as member of an in-expression
                     ctx.do({"kind": "render_list", "cfg": list(cfg), "s": s, "other": "zz", "first": n % 2 == 1, "allow_wild": len(s) % 2 == 0 or "*" in s or "?" in s})
                     ctx.do({"kind": "render_list", "cfg": list(cfg), "s": s, "other": "z\\*", "first": n % 2 == 0, "allow_wild": False})
@@ -572,7 +626,12 @@ def random_cases(draw):
     kind = draw(st.sampled_from(["render", "parse", "regex", "regex_slot", "reesc", "reesc", "field"]))
     wide = st.lists(st.sampled_from(list("\\*?\"'^%_.:&aB é+()[]{}|$-/") + ["\\\\", "\\*", "ß", "a" * 40, "b" * 70]), max_size=20).map("".join)
     if kind == "render":
-        return {"kind": "render", "cfg": list(draw(st.sampled_from(CONFIGS))), "s": draw(wide)}
+        c = {"kind": "render", "cfg": list(draw(st.sampled_from(CONFIGS))), "s": draw(wide)}
+        if c["cfg"][0] and draw(st.integers(0, 2)) == 0:
+            c["qpat"] = draw(st.sampled_from(QP_NAMES))
+            if draw(st.booleans()):
+                c["s"] = draw(st.lists(st.sampled_from(list("a1 9z") + ["\t", "*", "\\*"]), max_size=5).map("".join))
+        return c
     if kind == "parse":
         return {"kind": "parse", "s": draw(wide)}
     if kind == "regex":
